@@ -36,6 +36,8 @@ class Component(BaseObject):
         )
     }
 
+    _observedBaseGlyph = None
+
     def __init__(self, glyph=None):
         self._font = None
         self._layerSet = None
@@ -315,13 +317,26 @@ class Component(BaseObject):
         layer = self.layer
         if baseGlyph is None:
             baseGlyph = layer[self.baseGlyph]
+        # remember the glyph object: another one may take its name in the layer
+        self._observedBaseGlyph = weakref.ref(baseGlyph)
         baseGlyph.addObserver(self, "baseGlyphNameChangedNotificationCallback", "Glyph.NameChanged")
         baseGlyph.addObserver(self, "baseGlyphDataChangedNotificationCallback", "Glyph.ContoursChanged")
         baseGlyph.addObserver(self, "baseGlyphDataChangedNotificationCallback", "Glyph.ComponentsChanged")
         layer.addObserver(self, "layerGlyphWillBeDeletedNotificationCallback", "Layer.GlyphWillBeDeleted")
+        layer.addObserver(self, "layerBaseGlyphReplacedNotificationCallback", "Layer.GlyphAdded")
+        layer.addObserver(self, "layerBaseGlyphReplacedNotificationCallback", "Layer.GlyphNameChanged")
 
     def _endBaseGlyphObservations(self, baseGlyph=None):
         layer = self.layer
+        if layer.hasObserver(self, "Layer.GlyphWillBeDeleted"):
+            layer.removeObserver(self, "Layer.GlyphWillBeDeleted")
+            layer.removeObserver(self, "Layer.GlyphAdded")
+            layer.removeObserver(self, "Layer.GlyphNameChanged")
+        if baseGlyph is None:
+            # the glyph object that is being observed
+            if self._observedBaseGlyph is not None:
+                baseGlyph = self._observedBaseGlyph()
+        self._observedBaseGlyph = None
         if baseGlyph is None:
             baseGlyph = self.baseGlyph
             if baseGlyph is None:
@@ -334,8 +349,6 @@ class Component(BaseObject):
             baseGlyph.removeObserver(self, "Glyph.NameChanged")
             baseGlyph.removeObserver(self, "Glyph.ContoursChanged")
             baseGlyph.removeObserver(self, "Glyph.ComponentsChanged")
-        if layer.hasObserver(self, "Layer.GlyphWillBeDeleted"):
-            layer.removeObserver(self, "Layer.GlyphWillBeDeleted")
 
     def _beginLayerObservations(self):
         layer = self.layer
@@ -382,6 +395,20 @@ class Component(BaseObject):
         name = notification.data["name"]
         if name != self.baseGlyph:
             return
+        self.postNotification("Component.BaseGlyphDataChanged")
+
+    def layerBaseGlyphReplacedNotificationCallback(self, notification):
+        # while the base glyph is being observed: another glyph object has
+        # been filed under its name (newGlyph or insertGlyph over the name,
+        # or a glyph renamed to it). observe that one from now on.
+        if notification.name == "Layer.GlyphNameChanged":
+            name = notification.data["newValue"]
+        else:
+            name = notification.data["name"]
+        if name != self.baseGlyph:
+            return
+        self._endBaseGlyphObservations()
+        self._beginBaseGlyphObservations()
         self.postNotification("Component.BaseGlyphDataChanged")
 
     def layerGlyphAddedNotificationCallback(self, notification):
